@@ -482,6 +482,9 @@ pub fn scenario(stream: &str, r: &mut Rng, idx: u64) -> Vec<String> {
             out.extend(queries.iter().cloned());
             out.extend(seeks.iter().cloned());
             if stream == "v1" {
+                if r.chance(1, 2) {
+                    out.push(format!("srcopt {}={}", r.pick(&["choppy", "short", "intr"]), r.next() % 1000000));
+                }
                 out.push("v1".into());
                 out.extend(queries);
                 out.extend(seeks);
@@ -523,6 +526,22 @@ pub fn scenario(stream: &str, r: &mut Rng, idx: u64) -> Vec<String> {
             let mf = *r.pick(&["concat", "concat", "first", "sum", "bag"]);
             out.push(format!("merge {} 0", mf));
             out.push(format!("mergew {} 0", mf));
+        }
+        "sorter" if r.chance(1, 12) => {
+            // no hook: the builder's real clamps and initial capacity (10 MiB minimum, 128 KiB
+            // initial buffer); a handful of small inserts, every exit
+            let thr = *r.pick(&[0u64, 1024, 10485760, 10485767, 20000000]);
+            let realloc = r.below(2);
+            let maxchunks = *r.pick(&[0u64, 1, 2, 25]);
+            out.push(format!("scfg thr={} realloc={} maxchunks={} stable=1 par=0 codec=0 bs=8192", thr, realloc, maxchunks));
+            out.push("snew concat 0".into());
+            let keys = gen_keys(r, 6, 1);
+            for _ in 0..r.range(0, 30) {
+                let k = r.pick(&keys[..]).clone();
+                let n = r.range(0, 40) as usize;
+                out.push(format!("sins {} {}", hex(&k), hex(&r.bytes(n))));
+            }
+            out.push(format!("sfinish {}", r.pick(&["stream", "writer", "cursors"])));
         }
         "sorter" | "sorterio" => {
             let minmem = *r.pick(&[64u64, 128, 256, 512, 1024]);
@@ -599,8 +618,11 @@ pub fn scenario(stream: &str, r: &mut Rng, idx: u64) -> Vec<String> {
             // C11, read side: every reader-side scenario again over a choppy source
             let o = CfgOpts { all_codecs: true, deep: true, extreme_levels: false };
             let es = build_file(r, &mut out, &o, 40);
+            out.push(format!("srcopt {}={}", r.pick(&["choppy", "short", "intr"]), r.next() % 1000000));
             out.push("load".into());
-            out.push(format!("srcopt choppy={}", r.next() % 1000000));
+            if r.chance(1, 3) {
+                out.push("v1".into());
+            }
             out.push("cnew 0".into());
             for _ in 0..40 {
                 out.push(format!("c 0 {}", gen_cursor_op(r, &es)));
